@@ -15,6 +15,8 @@ package main
 // Everything is written and read with the REAL FileSnapshotStore / raft.LastStateRaw / OfflineState / CleanupRaft / SnapshotSave.
 
 import (
+	"context"
+	"crypto/rand"
 	"fmt"
 	"io/ioutil"
 	"os"
@@ -24,6 +26,8 @@ import (
 	"time"
 
 	hraft "github.com/hashicorp/raft"
+	crypto "github.com/libp2p/go-libp2p-core/crypto"
+	peer "github.com/libp2p/go-libp2p-core/peer"
 	"github.com/ipfs/ipfs-cluster/consensus/raft"
 	p2praft "github.com/libp2p/go-libp2p-raft"
 
@@ -103,6 +107,14 @@ func parseSnapsCase(f []string) (snapsCase, bool) {
 	if c.op == "o" || c.op == "c" {
 		return c, true
 	}
+	if c.op == "b" { // round 8c: start a real peer on the folder (needs at least one listed snapshot)
+		for _, it := range c.items {
+			if it.kind == "s" {
+				return c, true
+			}
+		}
+		return c, false
+	}
 	if strings.HasPrefix(c.op, "s") {
 		n, err := strconv.Atoi(c.op[1:])
 		return c, err == nil && n >= 0 && n < len(cidTab)
@@ -110,13 +122,17 @@ func parseSnapsCase(f []string) (snapsCase, bool) {
 	return c, false
 }
 
+// snapConf is the server configuration written into the snapshots of the case being set up (op `b` needs the
+// identity of the peer that will be started as the single voter; the cases run one at a time)
+var snapConf hraft.Configuration
+
 func writeFileSnapshot(folder string, term, index, c int) (string, error) {
 	store, err := hraft.NewFileSnapshotStoreWithLogger(folder, 100, nil)
 	if err != nil {
 		return "", err
 	}
 	_, tr := hraft.NewInmemTransport("")
-	sink, err := store.Create(1, uint64(index), uint64(term), hraft.Configuration{}, 1, tr)
+	sink, err := store.Create(1, uint64(index), uint64(term), snapConf, 1, tr)
 	if err != nil {
 		return "", err
 	}
@@ -149,6 +165,18 @@ func runSnaps(c snapsCase) string {
 	base := scratch("snaps")
 	defer os.RemoveAll(base)
 	folder := filepath.Join(base, "raft")
+	snapConf = hraft.Configuration{}
+	var bootKey crypto.PrivKey
+	if c.op == "b" {
+		priv, pub, err := crypto.GenerateEd25519Key(rand.Reader)
+		if err != nil {
+			fatal("snaps setup: %v", err)
+		}
+		id, _ := peer.IDFromPublicKey(pub)
+		bootKey = priv
+		sid := hraft.ServerID(peer.Encode(id))
+		snapConf = hraft.Configuration{Servers: []hraft.Server{{Suffrage: hraft.Voter, ID: sid, Address: hraft.ServerAddress(sid)}}}
+	}
 	if !c.absent {
 		os.MkdirAll(filepath.Join(folder, "snapshots"), 0755)
 		for _, it := range c.items {
@@ -198,7 +226,24 @@ func runSnaps(c snapsCase) string {
 	pre := observeFolder(folder)
 	meta, _ := listMeta(folder)
 	failed := 0
+	started := ""
 	switch {
+	case c.op == "b":
+		// the REAL consensus component started on the folder as its single voter: what it serves once ready
+		started = "?"
+		if sp, err := bootPeer(bootKey, folder); err == nil {
+			if st, err := sp.cc.State(context.Background()); err == nil {
+				if l, err := listPins(st); err == nil {
+					if len(l) == 0 {
+						started = "0"
+					} else if len(l) == 1 && l[0].cid >= 1 {
+						started = strconv.Itoa(l[0].cid)
+					}
+				}
+			}
+			sp.stop()
+		}
+		return fmt.Sprintf("pre=%s meta=%s start=%s", pre, meta, started)
 	case c.op == "c":
 		if err := safely(func() error { return raft.CleanupRaft(raftCfg(folder, 3)) }); err != nil {
 			failed = 1
@@ -299,6 +344,10 @@ func genSnapsCase(r *common.Rng, k, total int) snapsCase {
 				}
 			}
 		}
+	}
+	if len(sn) > 0 && r.Intn(40) == 0 {
+		c.op = "b"
+		return c
 	}
 	switch x := r.Intn(10); {
 	case x < 2:
